@@ -214,6 +214,7 @@ type FS struct {
 	// state-changing entries fail with ErrInjected (not used for crash images).
 	FailAfter int
 	stateOps  int
+	failOnce  bool
 	gen       int // bumped by Kill: handles and locks of the dead process become invalid
 }
 
@@ -239,6 +240,7 @@ func (s *FS) ResetFailBudget(n int) {
 		return
 	}
 	s.FailAfter = s.stateOps + n
+	s.failOnce = true
 }
 
 // ErrInjected is returned by calls failed on purpose.
@@ -307,10 +309,17 @@ func (s *FS) OpenHandles() int {
 }
 
 func (s *FS) log(e Entry) error {
-	if e.StateChanging() {
+	// Injected failures never hit Remove: pogreb only logs a failed removal of a recovery backup
+	// file, and I/O errors are outside the failure models of the properties.
+	if e.StateChanging() && e.Kind != KRemove {
 		if s.FailAfter >= 0 && s.stateOps >= s.FailAfter {
+			if s.failOnce {
+				s.FailAfter = -1 // fail exactly this call; later calls (e.g. cleanup) succeed
+			}
 			return ErrInjected
 		}
+		s.stateOps++
+	} else if e.Kind == KRemove {
 		s.stateOps++
 	}
 	s.journal = append(s.journal, e)
